@@ -25,7 +25,10 @@ STATUSES = [
     ('enum', 418, 418), ('enum', 201, 201),
 ]
 METHODS = ['GET', 'GET', 'HEAD', 'HEAD', 'POST', 'PUT', 'DELETE', 'PATCH', 'OPTIONS']
-MEDIA = {'dict': {'k': 'v', 'é': 1}, 'empty-dict': {}, 'zero': 0, 'str': 'm', 'list': [1, 'a']}
+MEDIA = {'dict': {'k': 'v', 'é': 1}, 'empty-dict': {}, 'zero': 0, 'str': 'm', 'list': [1, 'a'],
+         # the other "falsy" JSON documents (C06 draws them; gen_plan itself keeps its original pool)
+         'empty-list': [], 'false': False, 'empty-str': '', 'zero-float': 0.0}
+FALSY_MEDIA = ['empty-dict', 'zero', 'empty-list', 'false', 'empty-str', 'zero-float']
 TEXTS = ['héllo-text', 'TEXT', '']
 DATAS = [b'DATA-bytes', b'\xff\x00d', b'']
 CHUNKS = [b'ab', b'c', b'def', b'\xffz']
@@ -51,14 +54,26 @@ class Probe:
     at the `fail`-th call, counts close().  step() returns None once the items are exhausted (the stream then ends
     the way its kind does: b'' / StopIteration / StopAsyncIteration / return)."""
 
-    def __init__(self, chunks, fail):
+    def __init__(self, chunks, fail, reader=None):
         self.chunks, self.fail, self.calls, self.closed, self.finalized = list(chunks), fail, 0, 0, 0
+        # reader: a file-like object that honours the size argument of read(n) and may return FEWER bytes than asked
+        # for while more data is still to come (see gen_reader); sizes = the n of every read(n) call it received
+        self.reader, self.pos, self.sizes = reader, 0, []
+        self.data = reader_data(reader['size']) if reader else b''
 
-    def step(self):
+    def step(self, n=None):
         i = self.calls
         self.calls += 1
         if self.fail == i:
             raise StreamFault(f'stream fault at call {i}')
+        if self.reader is not None:
+            self.sizes.append(n)
+            k = reader_cap(self.reader, i)
+            if n is not None and n >= 0:
+                k = min(k, n)
+            out = self.data[self.pos:self.pos + k]
+            self.pos += len(out)
+            return out
         return self.chunks.pop(0) if self.chunks else None
 
 
@@ -66,7 +81,7 @@ def make_stream(kind, probe):
     if kind in ('file', 'file-noclose'):
         class F:
             def read(self, n=-1):
-                c = probe.step()
+                c = probe.step(n)
                 return b'' if c is None else c
         if kind == 'file':
             F.close = lambda self: setattr(probe, 'closed', probe.closed + 1)
@@ -98,7 +113,7 @@ def make_stream(kind, probe):
     if kind in ('afile', 'afile-noclose'):
         class AF:
             async def read(self, n=-1):
-                c = probe.step()
+                c = probe.step(n)
                 if c is NONE:
                     return None
                 return b'' if c is None else c
@@ -216,9 +231,72 @@ def gen_plan(rnd, sse_ok=True, errors_ok=True, hist_ok=False, none_ok=False):
     return p
 
 
+# ---------------------------------------------------------------- file-like streams with short reads (C06)
+BLOCK = 8192   # the block size a server / falcon asks for (PEP 3333 file_wrapper default; falcon documents 8 KiB blocks)
+READER_SIZES = [0, 1, 5, 100, 5000, 8191, 8192, 8193, 10000, 12000, 16383, 16384, 16385, 20000, 24577]
+READER_CAPS = [1, 2, 7, 100, 1000, 1808, 2000, 4096, 5000, 8190, 8191, 8192, 8193, 8194, 10000, 16384, 30000]
+
+
+def reader_data(size):
+    """The content of a reader stream: a fixed function of its size (so that a plan only records the size)."""
+    return bytes((i * 7 + 13) % 251 for i in range(size))
+
+
+def reader_cap(reader, i):
+    """The most the reader returns at its i-th read() call, whatever is asked for (>= 1: only b'' means end of file)."""
+    caps = reader['caps']
+    return caps[i] if i < len(caps) else reader['tail']
+
+
+def reader_handouts(reader, n=BLOCK):
+    """What successive read(n) calls return, up to and including the first b''."""
+    data, pos, out, i = reader_data(reader['size']), 0, [], 0
+    while True:
+        c = data[pos:pos + min(n, reader_cap(reader, i))]
+        out.append(c)
+        pos += len(c)
+        i += 1
+        if not c:
+            return out
+
+
+def gen_reader(rnd):
+    """A file-like stream by its read contract: `size` bytes of content; the i-th read(n) returns min(n, caps[i]) bytes
+    (caps beyond the list: `tail`) - i.e. short reads BEFORE the end of the data.  Patterns: one byte at a time; random caps;
+    a pattern that changes (full blocks then short reads, short reads then full blocks); bursts just around the 8 KiB
+    block size; a regular file (never short before the end) for comparison."""
+    pat = rnd.choice(['one-byte', 'random', 'random', 'changing', 'changing', 'bursts', 'bursts', 'regular'])
+    size = rnd.choice(READER_SIZES)
+    big = [c for c in READER_CAPS if c >= BLOCK]
+    small = [c for c in READER_CAPS if c < BLOCK]
+    if pat == 'one-byte':
+        size = rnd.choice([1, 2, 5, 40, 100, 300])
+        caps, tail = [], 1
+    elif pat == 'random':
+        caps, tail = [rnd.choice(READER_CAPS) for _ in range(rnd.randint(1, 10))], rnd.choice(READER_CAPS)
+    elif pat == 'changing':
+        size = rnd.choice([s_ for s_ in READER_SIZES if s_ >= 8191] + [40000])
+        a, b = (big, small) if rnd.random() < 0.5 else (small, big)
+        caps = [rnd.choice(a) for _ in range(rnd.randint(1, 3))] + [rnd.choice(b) for _ in range(rnd.randint(1, 3))]
+        if rnd.random() < 0.5:
+            caps += [rnd.choice(a) for _ in range(rnd.randint(1, 2))]
+        tail = rnd.choice(READER_CAPS)
+    elif pat == 'bursts':
+        near = [BLOCK - 2, BLOCK - 1, BLOCK, BLOCK + 1, BLOCK + 2, BLOCK // 2, BLOCK // 2 + 1, 1]
+        caps, tail = [rnd.choice(near) for _ in range(rnd.randint(1, 6))], rnd.choice(near[:5])
+    else:
+        caps, tail = [], rnd.choice(big)
+    r = {'pattern': pat, 'size': size, 'caps': caps, 'tail': tail}
+    if len(reader_handouts(r)) > 320:      # keep the number of read() calls per response moderate
+        r['tail'] = max(r['tail'], 100)
+    return r
+
+
 def stream_items(p, asgi):
     """What the plan's stream object hands out call by call on that stack (NONE = it hands out None)."""
     st = p['stream']
+    if st.get('reader'):
+        return reader_handouts(st['reader'])
     items = list(st['chunks'])
     if asgi and st.get('none_at') is not None:
         items.insert(st['none_at'], NONE)
@@ -388,7 +466,7 @@ def fill(resp, p, asgi, snapshot=None):
             snapshot['renders'] = renders
     probe = None
     if p['stream'] is not None:
-        probe = Probe(stream_items(p, asgi), p['stream']['fail'])
+        probe = Probe(stream_items(p, asgi), p['stream']['fail'], p['stream'].get('reader'))
         kind = p['stream']['kind']
         resp.stream = make_stream(ASYNC_OF[kind] if asgi else kind, probe)
     if p['sse'] is not None and asgi:
@@ -473,6 +551,11 @@ def fz_line(p, snapshot, asgi_items=False):
     st = p['stream']
     if st is None:
         stream = '-'
+    elif st.get('reader'):
+        # the reader by its contract (content = reader_data(size) = Fr.content size): the driver derives what the
+        # read(8192) calls return (Fr.handouts) and feeds that to the Fz model
+        rd = st['reader']
+        stream = f"r:{rd['size']}:{'.'.join(str(c) for c in rd['caps']) or '-'}:{rd['tail']}"
     else:
         items = stream_items(p, asgi_items)
         stream = ('f' if st['kind'].startswith('file') else 'i') + ':' + (','.join('N' if c is NONE else hx(c) for c in items) or '.')
